@@ -198,6 +198,9 @@ def main(argv=None):
         "new_violation_groups": len(new_groups),
         "notes": notes,
     }
+    soft = [c for c in getattr(mod, "EXPECTED_NODES", []) if counters.get(c, 0) == 0]
+    if soft:
+        cov["coverage_gaps"] = soft  # informational: method-tree node classes never compiled in this run
     if hasattr(mod, "finish_coverage"):
         mod.finish_coverage(cov, counters, a.tier)
     ev = {
